@@ -371,166 +371,82 @@ def enumerate_generator(ctx, rid):
 
 
 def r4_r5_generation(ctx, fields, setters, pairing, roles):
+    """make_move read as a decision table (inkalint/semtable.py): for every combination of side to move, castling
+    rights, source / target square class, moving and captured piece the setters called on the pushed move are
+    compared with the rules. Independent of how the conditions are written."""
+    from . import genmove_table as GT
+    from ..semtable import judge
     ctx.rule("C02.R4", "the half-move reset flag is set exactly for: piece moved is a pawn, or something is captured", floor=2)
     ctx.rule("C02.R5", "each castling-right-lost flag is set exactly when that right is held and the source (own) / target (opponent) square is the rook's or king's home square of that colour, for both colours", floor=16)
-    prog = ctx.prog
-    try:
-        f, cfg, paths = enumerate_generator(ctx, "C02.R5")
-    except (NotLoopFree, OverflowError) as e:
-        ctx.lost("C02.R5", "make_move is not loop-free or has too many paths (%s)" % e)
+    tb = GT.table(ctx, "C02.R4", ("set_halfmove_reset",))
+    if tb is None:
         return
-    ctx.extra["make_move_paths"] = len(paths)
-    PAWN = prog.const_value("inkayaku_board::board::constants::PAWN")
-    NO_PIECE = prog.const_value("inkayaku_board::board::constants::NO_PIECE")
-    ROOK = prog.const_value("inkayaku_board::board::constants::ROOK")
-    KING = prog.const_value("inkayaku_board::board::constants::KING")
-    cd = cfg.control_deps()
-    reasons = {}   # (setter, colour) -> set of frozenset of (atom, truth)
-    heads = {}     # (setter, colour) -> block of the switch on the castling-right flag that opens the setter's condition
-    seen_colours = set()
-    for p, pe, colour in paths:
-        seen_colours.add(colour)
-        cond_at = {b: (d, c) for (d, c, b, ty) in pe.conds}
-        for b in p:
-            t = f["blocks"][b]["term"]
-            if t["k"] != "call":
-                continue
-            k = t["callee"].get("key") or ""
-            if not k.startswith(MF.MOVE + "set_"):
-                continue
-            sname = k[len(MF.MOVE):]
-            # governing conditions: walk up the control dependence; do not look past the castling-right flag
-            atoms = []
-            work, seen_b = [b], set()
-            while work:
-                x = work.pop()
-                if x in seen_b:
-                    continue
-                seen_b.add(x)
-                for (a, sb) in cd.get(x, ()):
-                    if a in cond_at and a in p:
-                        d, c = cond_at[a]
-                        atoms.append((d, c != ("in", (0,))))
-                        is_flag = d[0] == "f" and d[2].endswith("_castle")
-                        if is_flag and c != ("in", (0,)):
-                            heads.setdefault((sname, colour), set()).add(a)
-                        if sname != "set_halfmove_reset" and not is_flag and d[0] == "bin" and d[1] == "Eq":
-                            work.append(a)
-            reasons.setdefault((sname, colour), set()).add(frozenset(atoms))
-    if seen_colours != {"white", "black"}:
-        ctx.lost("C02.R5", "make_move paths for both colours (found %s)" % seen_colours)
+    f, leaves, domains, c, home = tb
+    live = [lf for lf in leaves if GT.pushed(lf)]
+    if not live:
+        ctx.lost("C02.R4", "a path of make_move that pushes the move")
         return
     # ---- R4
-    rs = set()
-    for col in ("white", "black"):
-        rs |= reasons.get(("set_halfmove_reset", col), set())
-    pos = set()
-    for r in rs:
-        for (d, truth) in r:
-            if truth:
-                pos.add(d)
-    def is_pawn_atom(d):
-        return d[0] == "bin" and d[1] == "Eq" and ("param", 6) in (d[2], d[3]) and any(x[0] == "c" and x[1] == PAWN for x in (d[2], d[3]))
-    def is_capture_atom(d):
-        return d[0] == "bin" and d[1] == "Ne" and any(x[0] == "c" and x[1] == NO_PIECE for x in (d[2], d[3])) and any(x[0] == "call" and x[1].endswith("get_piece_const_by_square_shift") for x in (d[2], d[3]))
-    ok = all(is_pawn_atom(d) or is_capture_atom(d) for d in pos) and any(is_pawn_atom(d) for d in pos) and any(is_capture_atom(d) for d in pos)
-    ctx.ob("C02.R4", "reset-condition", ok, "" if ok else "set_halfmove_reset is called under %s (expected: piece_active == PAWN, or piece_attacked != NO_PIECE)" % [show(d) for d in pos],
-           ctx.where(f), sample={"positive_conditions": [show(d) for d in pos]})
-    # every path on which the flag is set has one of the two true; and no path skips it while one is true: the call
-    # block's control dependence consists only of these two switches
-    extra = set()
-    for r in rs:
-        for (d, truth) in r:
-            if not (is_pawn_atom(d) or is_capture_atom(d)):
-                extra.add(show(d))
-    ctx.ob("C02.R4", "no-further-condition", not extra, "" if not extra else "the reset flag additionally depends on %s" % sorted(extra), ctx.where(f))
+    names = ["piece", "attacked"]
+    viol, und, n = judge(live, names, domains, lambda lf: GT.setter_called(lf, "set_halfmove_reset"),
+                         lambda e: e["piece"] == c["PAWN"] or e["attacked"] != c["NO_PIECE"])
+    wrongly_set = [v for v in viol if v[1]]
+    missing = [v for v in viol if not v[1]]
+    ctx.ob("C02.R4", "reset-condition", not missing,
+           "" if not missing else "a move with %s is generated without set_halfmove_reset: the half-move clock keeps counting over a pawn move / capture" % GT.describe(missing[0][0], c),
+           ctx.where(f), sample={"cases": n, "leaves": len(live)})
+    ctx.ob("C02.R4", "no-further-condition", not wrongly_set,
+           "" if not wrongly_set else "a move with %s is generated with set_halfmove_reset: the half-move clock is reset by a quiet piece move" % GT.describe(wrongly_set[0][0], c), ctx.where(f))
+    for u in und[:1]:
+        ctx.lost("C02.R4", "reset flag under a condition the table cannot evaluate (%s)" % "; ".join(show(d) for d, cc in u[3].opaque)[:160])
     # ---- R5
-    home = {"white": {"a": G.sq_of(0, 7), "e": G.sq_of(4, 7), "h": G.sq_of(7, 7)}, "black": {"a": G.sq_of(0, 0), "e": G.sq_of(4, 0), "h": G.sq_of(7, 0)}}
     for sname, fld in sorted(pairing.items()):
         if fld not in roles:
             continue
         role, flag = roles[fld]   # ('mover'|'opponent', 'king_side_castle'|'queen_side_castle')
+        rook_file = "h" if flag.startswith("king") else "a"
+        tb = GT.table(ctx, "C02.R5", (sname,))
+        if tb is None:
+            continue
+        f, leaves, domains, c, home = tb
+        live = [lf for lf in leaves if GT.pushed(lf)]
         for col in ("white", "black"):
             other = "black" if col == "white" else "white"
             owner = col if role == "mover" else other
-            rook_file = "h" if flag.startswith("king") else "a"
+            tv = c["WHITE"] if col == "white" else c["BLACK"]
+            fv = "%s.%s" % (owner, flag)
+            sqv = "source" if role == "mover" else "target"
+            pv = "piece" if role == "mover" else "attacked"
             want_sq = {home[owner][rook_file]} | ({home[owner]["e"]} if role == "mover" else set())
-            want_var = ("param", 4) if role == "mover" else ("param", 5)   # source / target square parameter of make_move
-            rs = reasons.get((sname, col), set())
-            got_sq, got_flags, others = set(), set(), set()
-            for r in rs:
-                for (d, truth) in r:
-                    if d[0] == "bin" and d[1] == "Eq" and want_var in (d[2], d[3]):
-                        cst = d[3] if d[2] == want_var else d[2]
-                        try:
-                            v = fold(cst)
-                            if truth:
-                                got_sq.add(v)
-                        except Unfoldable:
-                            others.add(show(d))
-                    elif d[0] == "f" and d[2].endswith("_castle"):
-                        if truth:
-                            got_flags.add((d[1], d[2]))
-                    elif truth:
-                        others.add(show(d))
-            # the decision must not be skipped: a path that pushes the move without evaluating this setter's
-            # condition must already exclude it (it tested the same square parameter against another square)
-            hs = heads.get((sname, col), set())
-            skipped = []
-            if len(hs) == 1:
-                h = list(hs)[0]
-                for p_, pe_, c_ in paths:
-                    if c_ != col or h in p_:
-                        continue
-                    if not any(t_[0] == "call" and t_[1].endswith("Vec::push") for b_, t_ in pe_.calls):
-                        continue
-                    excl = False
-                    for (d_, cc_, b_, ty_) in pe_.conds:
-                        if cc_ != ("in", (0,)) and d_[0] == "bin" and d_[1] == "Eq" and want_var in (d_[2], d_[3]):
-                            cst_ = d_[3] if d_[2] == want_var else d_[2]
-                            try:
-                                if fold(cst_) not in want_sq:
-                                    excl = True
-                            except Unfoldable:
-                                pass
-                    # a held right implies the rook (and king) stand on their home squares, so a path that has
-                    # established "the captured piece is no rook" (opponent's right) or "the moving piece is neither
-                    # king nor rook" (own right) excludes the loss as well
-                    neg_rook_capture = False
-                    not_king, not_rook = False, False
-                    for (d_, cc_, b_, ty_) in pe_.conds:
-                        truth_ = cc_ != ("in", (0,))
-                        if d_[0] == "bin" and d_[1] in ("Eq", "Ne"):
-                            consts_ = [x for x in (d_[2], d_[3]) if x[0] == "c"]
-                            other_ = [x for x in (d_[2], d_[3]) if x[0] != "c"]
-                            if len(consts_) == 1 and len(other_) == 1:
-                                is_eq_true = (d_[1] == "Eq") == truth_
-                                if other_[0][0] == "call" and other_[0][1].endswith("get_piece_const_by_square_shift") and consts_[0][1] == ROOK and not is_eq_true:
-                                    neg_rook_capture = True
-                                if other_[0] == ("param", 6) and not is_eq_true:
-                                    if consts_[0][1] == KING:
-                                        not_king = True
-                                    if consts_[0][1] == ROOK:
-                                        not_rook = True
-                    if role == "opponent" and neg_rook_capture:
-                        excl = True
-                    if role == "mover" and not_king and not_rook:
-                        excl = True
-                    if not excl:
-                        skipped.append([show(d_) for (d_, cc_, b_, ty_) in pe_.conds if cc_ != ("in", (0,)) and d_[0] == "bin" and d_[1] == "Eq"][:3])
-            ok2 = len(hs) == 1 and not skipped
-            ctx.ob("C02.R5", "%s|%s-to-move|decision-not-skipped" % (sname, col), ok2,
-                   "" if ok2 else "%s to move: a move can be generated without %s's condition being evaluated although that condition may hold (e.g. when %s): the right is then kept wrongly"
-                   % (col, sname, skipped[0] if skipped else "no unique condition head found"), ctx.where(f))
-            want_flag = (("f", ("*", ("param", 1)), owner), flag)
-            flag_ok = {(fl[0][1] if fl[0][0] == "*" else fl[0], fl[1]) for fl in got_flags} == {want_flag} or got_flags == {(("f", ("*", ("param", 1)), owner), flag)} \
-                or {(B_strip(fl[0]), fl[1]) for fl in got_flags} == {want_flag}
-            ok = bool(rs) and got_sq == want_sq and flag_ok
-            ctx.ob("C02.R5", "%s|%s-to-move" % (sname, col), ok,
-                   "" if ok else "%s to move: %s is set for %s square(s) %s under flag(s) %s; the rules give square(s) %s of %s and flag %s.%s%s"
-                   % (col, sname, "source" if role == "mover" else "target", sorted(got_sq), sorted((show(a), b) for a, b in got_flags), sorted(want_sq), owner, owner, flag,
-                      "" if not others else " (further conditions: %s)" % sorted(others)),
-                   ctx.where(f), sample={"setter": sname, "to_move": col, "squares": sorted(got_sq), "owner": owner, "flag": flag})
+            names = ["turn", fv, sqv, pv]
+            def spec(e):
+                return bool(e[fv]) and e[sqv] in want_sq
+            def constraint(e):
+                if e["turn"] != tv:
+                    return False
+                # a held right implies king and rook on their home squares (make/unmake keep it; the FEN reader
+                # establishes it, C12): whatever leaves or is captured on such a square is that piece
+                if e[fv] and e[sqv] == home[owner][rook_file] and e[pv] != c["ROOK"]:
+                    return False
+                if role == "mover" and e[fv] and e[sqv] == home[owner]["e"] and e[pv] != c["KING"]:
+                    return False
+                return True
+            viol, und, n = judge(live, names, domains, lambda lf: GT.setter_called(lf, sname), spec, constraint)
+            if n == 0:
+                ctx.lost("C02.R5", "make_move paths with %s to move" % col)
+                continue
+            wrongly_set = [v for v in viol if v[1]]
+            missing = [v for v in viol if not v[1]]
+            ctx.ob("C02.R5", "%s|%s-to-move|decision-not-skipped" % (sname, col), not missing,
+                   "" if not missing else "%s to move: a move with %s is generated without %s although %s holds %s and the %s square is a home square: the right is then kept wrongly"
+                   % (col, GT.describe(missing[0][0], c), sname, owner, flag, sqv), ctx.where(f))
+            ctx.ob("C02.R5", "%s|%s-to-move" % (sname, col), not wrongly_set,
+                   "" if not wrongly_set else "%s to move: %s is set for a move with %s; the rules give %s square(s) %s of %s and flag %s.%s"
+                   % (col, sname, GT.describe(wrongly_set[0][0], c), sqv, sorted(G.name_of(x) for x in want_sq), owner, owner, flag),
+                   ctx.where(f), sample={"setter": sname, "to_move": col, "squares": sorted(want_sq), "owner": owner, "flag": flag, "cases": n})
+            for u in und[:1]:
+                ctx.lost("C02.R5", "%s under a condition the table cannot evaluate (%s)" % (sname, "; ".join(show(d) for d, cc in u[3].opaque)[:160]))
+    ctx.assumptions += ["C02.R5: a held castling right implies that king and rook stand on their home squares (established by the FEN reader, C12.R7; kept by make/unmake, C03.R3) - a generator may rely on it"]
 
 
 def B_strip(t):
